@@ -343,20 +343,20 @@ impl Call {
                     0 => rng.range(8, 10) as usize,
                     _ => rng.below(8) as usize,
                 };
-                c.blob = rng.bytes(4 * n);
+                c.blob = routing_entries(rng, n);
             }
-            Form::ResolveUuid | Form::RGetUuid => c.blob = rng.bytes(16),
+            Form::ResolveUuid | Form::RGetUuid => c.blob = rng.pattern_bytes(16),
             Form::RGetTypes => {
                 let n = match rng.below(10) {
                     0 => rng.range(31, 34) as usize,
                     1 => *rng.pick(&[0usize, 1, 29, 30]),
                     _ => rng.below(31) as usize,
                 };
-                c.blob = rng.bytes(n);
+                c.blob = rng.pattern_bytes(n);
             }
             Form::RGetVendor => {
                 let n = rng.below(8) as usize;
-                c.blob = rng.bytes(n);
+                c.blob = rng.pattern_bytes(n);
             }
             Form::VendorDefined => {
                 c.p[0] = match rng.below(8) {
@@ -365,7 +365,7 @@ impl Call {
                     _ => rng.below(2) as u8,
                 };
                 let n = body_len(rng, max_body);
-                c.blob = rng.bytes(n);
+                c.blob = rng.pattern_bytes(n);
             }
             f if f.is_gen() => {
                 c.hdr = match rng.below(4) {
@@ -379,12 +379,49 @@ impl Call {
                     c.hdr = Some(rng.bytes(2));
                 }
                 let n = body_len(rng, max_body);
-                c.blob = rng.bytes(n);
+                c.blob = rng.pattern_bytes(n);
             }
             _ => {}
         }
         c
     }
+}
+
+/// `n` routing entries (4 bytes each: type, range size, first EID, physical address). Half of the
+/// time the entries are *related* the way a real routing table's are: same type and address,
+/// contiguous or overlapping EID ranges, exact duplicates, sorted or reversed order.
+pub fn routing_entries(rng: &mut Rng, n: usize) -> Vec<u8> {
+    let mut v: Vec<[u8; 4]> = Vec::with_capacity(n);
+    let related = rng.chance(1, 2);
+    for i in 0..n {
+        if i == 0 || !related {
+            let mut e = [rng.byte(), rng.byte(), rng.byte(), rng.byte()];
+            if related {
+                e[0] &= 0x03;
+                e[1] = 1 + rng.below(16) as u8;
+            }
+            v.push(e);
+            continue;
+        }
+        let p = v[i - 1];
+        let e = match rng.below(8) {
+            // contiguous range behind the same bridge / address
+            0 | 1 | 2 => [p[0], if rng.chance(1, 2) { p[1] } else { 1 + rng.below(16) as u8 }, p[2].wrapping_add(p[1]), p[3]],
+            // exact duplicate
+            3 => p,
+            // same range, other address / other type
+            4 => [p[0], p[1], p[2], rng.byte()],
+            5 => [(p[0] + 1) & 3, p[1], p[2], p[3]],
+            // overlapping or preceding range
+            6 => [p[0], p[1], p[2].wrapping_sub(p[1]), p[3]],
+            _ => [rng.byte() & 3, rng.byte(), rng.byte(), rng.byte()],
+        };
+        v.push(e);
+    }
+    if related && rng.chance(1, 4) {
+        v.reverse();
+    }
+    v.into_iter().flatten().collect()
 }
 
 fn body_len(rng: &mut Rng, max_body: usize) -> usize {
